@@ -425,6 +425,142 @@ theorem ofRat_pow2 (neg : Bool) (mm : Nat) (ee : Int) (M : Nat) (E : Int)
     simp only [this, if_false]
     omega
 
+
+/-! ### digits of `10·n` -/
+
+theorem natDigitsGo_indep (f1 : Nat) : ∀ (f2 n : Nat), 0 < f1 → 0 < f2 → n < 10 ^ f1 → n < 10 ^ f2 →
+    natDigitsGo f1 n [] = natDigitsGo f2 n [] := by
+  induction f1 with
+  | zero => intro f2 n h; omega
+  | succ g ih =>
+    intro f2 n _ h2 hn1 hn2
+    obtain ⟨g2, rfl⟩ : ∃ g2, f2 = g2 + 1 := ⟨f2 - 1, by omega⟩
+    unfold natDigitsGo
+    split
+    · rfl
+    · rename_i h10
+      rw [natDigitsGo_acc g, natDigitsGo_acc g2]
+      have hg : 0 < g := by
+        cases g with
+        | zero => simp at hn1; omega
+        | succ _ => omega
+      have hg2 : 0 < g2 := by
+        cases g2 with
+        | zero => simp at hn2; omega
+        | succ _ => omega
+      rw [ih g2 (n / 10) hg hg2 (by rw [Nat.pow_succ] at hn1; omega) (by rw [Nat.pow_succ] at hn2; omega)]
+
+theorem natDigits_mul10 (n : Nat) (h : 0 < n) : natDigits (n * 10) = natDigits n ++ [0] := by
+  unfold natDigits
+  have hlt := lt_ten_pow_log2 (n * 10)
+  generalize Nat.log2 (n * 10) = l at *
+  unfold natDigitsGo
+  have : ¬ (n * 10 < 10) := by omega
+  simp only [this, if_false]
+  rw [natDigitsGo_acc, Nat.mul_div_cancel _ (by omega : 0 < 10), Nat.mul_mod_left]
+  congr 1
+  have hl : 0 < l := by
+    cases l with
+    | zero => simp at hlt; omega
+    | succ _ => omega
+  exact natDigitsGo_indep l _ n hl (by omega) (by rw [Nat.pow_succ] at hlt; omega) (lt_ten_pow_log2 n)
+
+
+/-! ### `ofRat` on `10n / 10` -/
+
+/-- `⌊log2 (10n / 10)⌋ = ⌊log2 n⌋`, computed by `ilog2` without cancelling the factor -/
+theorem ilog2_ten (n : Nat) (hn : 0 < n) : ilog2 (10 * n) 10 = (Nat.log2 n : Int) := by
+  have hn0 : n ≠ 0 := by omega
+  have h1 := Nat.log2_self_le hn0
+  have h2 : n < 2 ^ (n.log2 + 1) := Nat.lt_log2_self
+  have h10 : Nat.log2 10 = 3 := by decide
+  have hne : 10 * n ≠ 0 := by omega
+  generalize hL : n.log2 = L at *
+  have hlo : 2 ^ (L + 3) ≤ 10 * n := by
+    rw [Nat.pow_add]; simp only [Nat.reducePow]; omega
+  have hhi : 10 * n < 2 ^ (L + 5) := by
+    rw [show L + 5 = (L + 1) + 4 by omega, Nat.pow_add]; simp only [Nat.reducePow]; omega
+  have hl3 : L + 3 ≤ (10 * n).log2 := (Nat.le_log2 hne).2 hlo
+  have hl5 : (10 * n).log2 < L + 5 := (Nat.log2_lt hne).2 hhi
+  unfold ilog2
+  rw [h10]
+  by_cases hc : (10 * n).log2 = L + 3
+  · rw [hc]
+    have hs : ((L + 3 : Nat) : Int) - ((3 : Nat) : Int) ≥ 0 := by omega
+    have ht : (((L + 3 : Nat) : Int) - ((3 : Nat) : Int)).toNat = L := by omega
+    simp only [hs, if_true, ht]
+    have : 10 * n ≥ 10 * 2 ^ L := by omega
+    simp only [this, decide_true, if_true]
+    omega
+  · have hc4 : (10 * n).log2 = L + 4 := by omega
+    rw [hc4]
+    have hs : ((L + 4 : Nat) : Int) - ((3 : Nat) : Int) ≥ 0 := by omega
+    have ht : (((L + 4 : Nat) : Int) - ((3 : Nat) : Int)).toNat = L + 1 := by omega
+    simp only [hs, if_true, ht]
+    have : ¬ (10 * n ≥ 10 * 2 ^ (L + 1)) := by omega
+    simp only [this, decide_false, Bool.false_eq_true, if_false]
+    omega
+
+
+/-- correctly rounded conversion of `10n / 10` for a representable positive integer `n` -/
+theorem ofRat_ten (neg : Bool) (n M : Nat) (hn : 0 < n) (hL : Nat.log2 n ≤ 1023)
+    (hM : if Nat.log2 n ≤ 52 then M = n * 2 ^ (52 - Nat.log2 n) else n = M * 2 ^ (Nat.log2 n - 52)) :
+    ofRat neg (10 * n) 10 =
+      (if neg then 2 ^ 63 else 0) + ((Nat.log2 n + 1023) * 2 ^ 52 + (M - 2 ^ 52)) := by
+  have hn0 : n ≠ 0 := by omega
+  have h1 := Nat.log2_self_le hn0
+  have h2 : n < 2 ^ (n.log2 + 1) := Nat.lt_log2_self
+  have hil := ilog2_ten n hn
+  unfold ofRat
+  have hne : ¬ (10 * n = 0) := by omega
+  simp only [beq_iff_eq, hne, if_false, hil]
+  generalize hLd : n.log2 = L at *
+  have hsel : ¬ ((L : Int) - 52 < -1074) := by omega
+  simp only [hsel, if_false]
+  have hMb : 2 ^ 52 ≤ M ∧ M < 2 ^ 53 := by
+    by_cases hc : L ≤ 52
+    · simp only [hc, if_true] at hM
+      have e1 : 2 ^ 52 = 2 ^ L * 2 ^ (52 - L) := by rw [← Nat.pow_add]; congr 1; omega
+      have e2 : 2 ^ 53 = 2 ^ (L + 1) * 2 ^ (52 - L) := by rw [← Nat.pow_add]; congr 1; omega
+      have hp : 0 < 2 ^ (52 - L) := Nat.pow_pos (by omega)
+      rw [hM, e1, e2]
+      exact ⟨Nat.mul_le_mul_right _ h1, Nat.mul_lt_mul_of_pos_right h2 hp⟩
+    · simp only [hc, if_false] at hM
+      have e1 : 2 ^ L = 2 ^ 52 * 2 ^ (L - 52) := by rw [← Nat.pow_add]; congr 1; omega
+      have e2 : 2 ^ (L + 1) = 2 ^ 53 * 2 ^ (L - 52) := by rw [← Nat.pow_add]; congr 1; omega
+      have hp : 0 < 2 ^ (L - 52) := Nat.pow_pos (by omega)
+      rw [hM, e1] at h1
+      rw [hM, e2] at h2
+      exact ⟨Nat.le_of_mul_le_mul_right h1 hp, Nat.lt_of_mul_lt_mul_right h2⟩
+  have hrhe : roundHalfEven (scale2 (10 * n) 10 (-((L : Int) - 52))).1 (scale2 (10 * n) 10 (-((L : Int) - 52))).2 = M := by
+    unfold scale2
+    by_cases hc : L ≤ 52
+    · simp only [hc, if_true] at hM
+      have : -((L : Int) - 52) ≥ 0 := by omega
+      simp only [this, if_true]
+      have e : (-((L : Int) - 52)).toNat = 52 - L := by omega
+      rw [e, Nat.mul_comm 10 n, Nat.mul_assoc, Nat.mul_comm 10, ← Nat.mul_assoc, ← hM]
+      exact roundHalfEven_exact M 10 (by omega)
+    · simp only [hc, if_false] at hM
+      have : ¬ (-((L : Int) - 52) ≥ 0) := by omega
+      simp only [this, if_false]
+      have e : (-(-((L : Int) - 52))).toNat = L - 52 := by omega
+      rw [e]
+      have : 10 * n = M * (10 * 2 ^ (L - 52)) := by
+        rw [hM]; rw [Nat.mul_comm 10 (M * _), Nat.mul_assoc, Nat.mul_comm _ 10]
+      rw [this]
+      exact roundHalfEven_exact M _ (Nat.mul_pos (by omega) (Nat.pow_pos (by omega)))
+  rw [show scale2 (10 * n) 10 (-((L : Int) - 52)) =
+    ((scale2 (10 * n) 10 (-((L : Int) - 52))).1, (scale2 (10 * n) 10 (-((L : Int) - 52))).2) from rfl]
+  simp only [hrhe]
+  have a1 : ¬ (M ≥ 2 ^ 53) := by omega
+  have a2 : ¬ (M < 2 ^ 52) := by omega
+  simp only [a1, a2, if_false]
+  have a3 : ((L : Int) - 52 + 1075).toNat = L + 1023 := by omega
+  have a4 : ¬ (L + 1023 ≥ 2047) := by omega
+  simp only [a3, a4, if_false]
+  omega
+
 end PV.Dec
 
 namespace PV.C17
@@ -1587,5 +1723,63 @@ theorem hexFacts_all (bits : Nat) (hb : bits < 2 ^ 64) (hf : isFinite bits = tru
     rw [e2]
     generalize (if isNeg bits = true then 2 ^ 63 else 0) = sg at *
     omega
+
+
+/-! ### integers in fixed notation -/
+
+/-- A double whose exact value is the integer `n` is rendered by the `is_integer` path of
+    `to_string` (`{:.1?}`) as the decimal digits of `n` followed by `.0`. -/
+theorem fixed1_of_integer (bits n : Nat) (hf : isFinite bits = true)
+    (hn : (ratOf (decompose bits).2.1 (decompose bits).2.2).1 = n * (ratOf (decompose bits).2.1 (decompose bits).2.2).2) :
+    toFixedL bits 1 = (if isNeg bits then [45] else []) ++ showDigits (natDigits n) ++ [46, 48] := by
+  have hden : 0 < (ratOf (decompose bits).2.1 (decompose bits).2.2).2 := by
+    unfold ratOf; split
+    · simp
+    · exact Nat.pow_pos (by omega)
+  have hfix : fixedInt bits 1 = n * 10 := by
+    unfold fixedInt
+    rw [show (decompose bits) = ((decompose bits).1, (decompose bits).2.1, (decompose bits).2.2) from rfl]
+    simp only
+    rw [show ratOf (decompose bits).2.1 (decompose bits).2.2 =
+      ((ratOf (decompose bits).2.1 (decompose bits).2.2).1, (ratOf (decompose bits).2.1 (decompose bits).2.2).2) from rfl]
+    simp only
+    rw [hn, Nat.pow_one, Nat.mul_assoc, Nat.mul_comm _ 10, ← Nat.mul_assoc]
+    exact roundHalfEven_exact _ _ hden
+  unfold toFixedL
+  simp only [finite_not_nan hf, finite_not_inf hf, Bool.false_eq_true, if_false, hfix]
+  have e1 : ((1 : Nat) == 0) = false := rfl
+  simp only [e1, Bool.false_eq_true, if_false]
+  by_cases h0 : n = 0
+  · subst h0
+    have : natDigits 0 = [0] := by decide
+    simp [this, showDigits]
+  · have hpos : 0 < n := by omega
+    rw [natDigits_mul10 n hpos]
+    have hne := natDigits_ne_nil n
+    have hlen : 1 ≤ (natDigits n).length := by
+      cases h : natDigits n with
+      | nil => exact absurd h hne
+      | cons a b => simp
+    have : 1 + 1 - (natDigits n ++ [0]).length = 0 := by simp; omega
+    rw [this]
+    simp [showDigits]
+
+theorem isInteger_of_integer (bits n : Nat) (hf : isFinite bits = true)
+    (hn : (ratOf (decompose bits).2.1 (decompose bits).2.2).1 = n * (ratOf (decompose bits).2.1 (decompose bits).2.2).2) :
+    isInteger bits = true := by
+  unfold isInteger
+  simp only [hf, Bool.not_true, Bool.false_eq_true, if_false]
+  rw [show (decompose bits) = ((decompose bits).1, (decompose bits).2.1, (decompose bits).2.2) from rfl]
+  simp only
+  generalize (decompose bits).2.1 = m at *
+  generalize (decompose bits).2.2 = e at *
+  by_cases he : e ≥ 0
+  · simp [he]
+  · simp only [he, if_false]
+    unfold ratOf at hn
+    simp only [he, if_false] at hn
+    have hpos : 0 < 2 ^ (-e).toNat := Nat.pow_pos (by omega)
+    have hmod : m % 2 ^ (-e).toNat = 0 := by rw [hn]; exact Nat.mul_mod_left _ _
+    simp [hmod, hpos]
 
 end PV.C17
